@@ -8,6 +8,7 @@ import os
 from check import Result
 from vlib import dtcodec, gen
 from vlib.dtcodec import f2bits
+from vlib.lean import batch_nl
 
 META = {
     'level_text': 'Theorems for every float carrier with the laws of Spec.C02.WireLaws, every well-formed datatype tree of any depth '
@@ -337,6 +338,7 @@ def run_impl(tree, fmts, v):
     dt = build_dt(tree, fmts)
     impl = dict.fromkeys(KEYS)
     libfail = []
+    stats = {}
     floats = list(float_leaves(tree, v))
     try:
         rec = Recorder(dt=dt)                     # the client's own tables, built from the description
@@ -359,7 +361,13 @@ def run_impl(tree, fmts, v):
                 json.loads(text, parse_constant=_reject_constant)
             except ValueError:
                 libfail.append('strict-json-parser refuses the emitted text')
-            data = decode_msg(frame)[2][0]
+            stats['line'] = len(frame)
+            action, ident, (data, qual) = decode_msg(frame)
+            # JsonText.loads_dumps, the wire law the theorems assume, on the real pair encode_msg_frame / decode_msg: the
+            # JSON value that arrives is the one that was sent (same types, floats bit by bit, strings code point by code
+            # point, members in the same order), and so are action, specifier and qualifiers
+            if not same_json(data, exp) or (action, ident, qual) != ('update', 'm:_par', {}):
+                libfail.append('wire law JsonText.loads_dumps: decode_msg(encode_msg_frame(j)) != j for j = %.300r' % (exp,))
             impl['exp'] = {'ok': enc_json(data)}           # what arrives: the output of json.loads
         except Exception as e:
             impl['exp'] = {'err': 'dumps:' + type(e).__name__}
@@ -370,6 +378,7 @@ def run_impl(tree, fmts, v):
     # ---- text on the node's datatype ----
     impl['text'], text = _out(lambda: dt.to_string(v), enc_text(tree))
     if text is not None:
+        stats['text'] = len(text)
         impl['back'], back = _out(lambda: dt.from_string(text), dtcodec.py_to_json)
         if 'ok' in impl['back']:
             floats += list(float_leaves(tree, back))
@@ -457,12 +466,31 @@ def run_impl(tree, fmts, v):
             libfail.append('repr law on %r' % (s,))
         if isinstance(s, bytes) and base64.b64decode(base64.b64encode(s).decode('ascii'), validate=True) != s:
             libfail.append('base64 law on %r' % (s,))
-    return impl, table, libfail
+    return impl, table, libfail, stats
+
+
+def same_json(a, b):
+    """identity of two JSON values as Python objects: same types (an int is not a float, a bool is not an int), floats
+    bit by bit, strings code point by code point, object members in the same order"""
+    if type(a) is not type(b):
+        return False
+    if isinstance(a, float):
+        return f2bits(a) == f2bits(b)
+    if isinstance(a, list):
+        return len(a) == len(b) and all(same_json(x, y) for x, y in zip(a, b))
+    if isinstance(a, dict):
+        return list(a) == list(b) and all(same_json(a[k], b[k]) for k in a)
+    return a == b
+
+
+LAST_STATS = {}
 
 
 def eval_case(case):
     v = dtcodec.json_to_py(case['v'])
-    impl, table, libfail = run_impl(case['tree'], case.get('fmts', {}), v)
+    impl, table, libfail, stats = run_impl(case['tree'], case.get('fmts', {}), v)
+    LAST_STATS.clear()
+    LAST_STATS.update(stats)
     req = {'p': 'C02', 'k': 'case', 'dt': case['tree'], 'v': case['v'], 'fmt': table, 'impl': impl}
     return req, impl, libfail
 
@@ -570,11 +598,250 @@ def extra_valid(rng, tree):
         pool = ['"', "'", '\\', '\n', '\t', "'\"", '\\n', ' ', '{}', '(1,)', '\x7f', '\x01'] + (['ü', '€', '\U0001d11e', 'é', '\xa0'] if tree['utf8'] else [])
         for n in {tree['min'], min(tree['max'], tree['min'] + 3)}:
             out.append(''.join(rng.choice(pool)[:1] for _ in range(n)))
+        # content a text layer may treat specially (normalization, case mapping, white space, control / format characters)
+        for n in {min(tree['max'], max(tree['min'], 2)), min(tree['max'], tree['min'] + rng.choice([1, 4, 9]))}:
+            if n >= tree['min']:
+                out.append(gen_text(rng, n, tree['utf8'], special=0.7))
     elif t == 'blob':
         for n in {tree['min'], min(tree['max'], 300)}:
             out.append(bytes((i * 7 + rng.randrange(256)) % 256 for i in range(n)))
         if tree['min'] <= 256 <= tree['max']:
             out.append(bytes(range(256)))
+    return out
+
+
+# ---------------------------------------------------------------------------------------------
+# generators: the content of strings (every class of characters a text layer may treat specially)
+# ---------------------------------------------------------------------------------------------
+_UNI = None
+
+# ASCII characters a text layer may treat specially (StringType(isUTF8=False) takes ASCII only, without NUL)
+ASCII_SPECIAL = ['\r', '\x0b', '\x0c', '\x1c', '\x1d', '\x1e', '\x1f', '\x1b', '\x08', '\x7f', '#', '%', '{', '}', '[', ']', '(', ')', ',', ':',
+                 '\\', '"', "'", '`', '$', '&', '<', '>', ';', '=', '\t', '\n', ' ']
+
+
+def uni_classes():
+    """classes of Unicode characters / character sequences, derived from the `unicodedata` tables of the interpreter
+    (nothing is hand-picked): characters a normalization form changes (one class per form), the canonical / compatibility
+    decompositions of such characters (sequences which *compose*), combining marks in non-canonical order, characters
+    changed by a case mapping, white space, line and paragraph separators, format / private-use / unassigned code points
+    (incl. the non-characters), non-printable ones, and code points outside the BMP.  Surrogates are left out (they can
+    not travel to the Lean side: `dtcodec.encodable`)."""
+    global _UNI
+    if _UNI is not None:
+        return _UNI
+    import unicodedata as u
+    cl = {k: [] for k in ('not-NFC', 'not-NFD', 'not-NFKC', 'not-NFKD', 'case', 'space', 'format', 'private', 'unassigned',
+                          'combining', 'unprintable', 'astral', 'decomposed', 'misordered-marks')}
+    marks = {}
+    for cp in range(0x80, 0x110000):
+        if 0xD800 <= cp <= 0xDFFF:
+            continue
+        c = chr(cp)
+        cat = u.category(c)
+        if cat == 'Cn' and not (cp & 0xFFFE == 0xFFFE or 0xFDD0 <= cp <= 0xFDEF or cp < 0x3000):
+            continue                                  # of the unassigned: the non-characters and the holes of the low blocks only
+        for f in ('NFC', 'NFD', 'NFKC', 'NFKD'):
+            if not u.is_normalized(f, c):
+                cl['not-' + f].append(c)
+        if not u.is_normalized('NFD', c):
+            cl['decomposed'].append(u.normalize('NFD', c))
+        if c.lower() != c or c.upper() != c or c.casefold() != c:
+            cl['case'].append(c)
+        if c.isspace() or cat in ('Zl', 'Zp', 'Zs'):
+            cl['space'].append(c)
+        if cat == 'Cf':
+            cl['format'].append(c)
+        elif cat == 'Co':
+            if cp in (0xE000, 0xF8FF, 0xF0000, 0xFFFFD, 0x100000, 0x10FFFD) or cp % 4099 == 0:
+                cl['private'].append(c)
+        elif cat == 'Cn':
+            cl['unassigned'].append(c)
+        elif cat in ('Mn', 'Mc', 'Me'):
+            cl['combining'].append(c)
+            cc = u.combining(c)
+            if cc and cp < 0x1000:
+                marks.setdefault(cc, c)
+        if not c.isprintable() and cat not in ('Co', 'Cn'):
+            cl['unprintable'].append(c)
+        if cp > 0xFFFF and cat not in ('Co', 'Cn') and cp % 7 == 0:
+            cl['astral'].append(c)
+    ccs = sorted(marks)
+    for i, a in enumerate(ccs):
+        for b in ccs[i + 1:i + 4]:
+            cl['misordered-marks'].append('a' + marks[b] + marks[a])       # higher combining class first: NFC/NFD reorder
+    # Hangul: the syllables are composed / decomposed by rule, not by table - keep some of both
+    cl['decomposed'] += [u.normalize('NFD', chr(cp)) for cp in range(0xAC00, 0xD7A4, 389)]
+    _UNI = {k: v for k, v in cl.items() if v}
+    return _UNI
+
+
+def gen_text(rng, n, utf8, special=0.5):
+    """a string of exactly n characters: positions filled from the plain pools or - with probability `special` - from a
+    class of characters a text layer may treat specially (ASCII: control characters and the punctuation of the text forms;
+    UTF-8: a class of `uni_classes`)"""
+    out, k = [], 0
+    classes = uni_classes() if utf8 else None
+    names = sorted(classes) if utf8 else None
+    while k < n:
+        if rng.random() < special:
+            if utf8 and rng.random() < 0.8:
+                s = rng.choice(classes[rng.choice(names)])
+            else:
+                s = rng.choice(ASCII_SPECIAL)
+        else:
+            s = rng.choice(gen.ASCII_POOL + (gen.UTF8_POOL if utf8 else []))
+        if k + len(s) > n or '\0' in s:
+            s = 'a'
+        out.append(s)
+        k += len(s)
+    return ''.join(out)
+
+
+def text_classes(s):
+    """the classes (of `uni_classes`, by property - not by membership in the sampled lists) a string touches; for the
+    evidence counts"""
+    import unicodedata as u
+    out = set()
+    if not s.isascii():
+        for f in ('NFC', 'NFD', 'NFKC', 'NFKD'):
+            if not u.is_normalized(f, s):
+                out.add('not-' + f)
+        if any(ord(c) > 0xFFFF for c in s):
+            out.add('astral')
+        if any(u.category(c) in ('Cf', 'Co', 'Cn') for c in s):
+            out.add('format/private/unassigned')
+        if any(c.isspace() for c in s if ord(c) > 127):
+            out.add('unicode-space')
+        if s.lower() != s or s.upper() != s:
+            out.add('case')
+    if any(c in '\r\x0b\x0c\x1c\x1d\x1e\x1f\x1b\x08' for c in s):
+        out.add('ascii-control')
+    return out or {'plain'}
+
+
+def odd_keys(rng, tree):
+    """the same tree with, now and then, struct member names drawn like string contents (a member name travels as the key
+    of a JSON object and is printed as a dict key in the text form)"""
+    t = tree['t']
+    if t == 'array':
+        return dict(tree, elem=odd_keys(rng, tree['elem']))
+    if t == 'tuple':
+        return dict(tree, elems=[odd_keys(rng, e) for e in tree['elems']])
+    if t == 'struct':
+        members = [[k, odd_keys(rng, m)] for k, m in tree['members']]
+        optional = list(tree['optional'])
+        if rng.random() < 0.25:
+            i = rng.randrange(len(members))
+            new = gen_text(rng, rng.choice([1, 2, 3, 6]), True, special=0.7)
+            if new and new not in [k for k, _ in members]:
+                optional = [new if k == members[i][0] else k for k in optional]
+                members[i][0] = new
+        return dict(tree, members=members, optional=optional)
+    return tree
+
+
+# ---------------------------------------------------------------------------------------------
+# generators: big values (maximal containers, long strings / blobs: the text form and the JSON line get long)
+# ---------------------------------------------------------------------------------------------
+# lengths around the constants a buffer / display limit / length field typically has
+SIZES = [100, 127, 128, 200, 255, 256, 257, 500, 512, 999, 1000, 1001, 1023, 1024, 1025, 2000, 2048, 4095, 4096, 4097, 8192,
+         10000, 16384, 32767, 32768, 65535, 65536, 65537, 100000]
+
+
+def _size(rng, lo, hi, budget):
+    """a length in [lo, hi] (hi may be 'unlimited'), not above budget unless lo is: hi itself when it fits, else one of SIZES"""
+    top = min(hi, max(lo, budget))
+    if top == hi and rng.random() < 0.6:
+        return hi
+    c = [s for s in SIZES if lo <= s <= top]
+    if c and rng.random() < 0.8:
+        return rng.choice(c)
+    return top
+
+
+def gen_big(rng, tree, budget=3000):
+    """a valid value which is as large as the type allows, within a budget of (roughly) characters of text: arrays filled
+    to maxlen, strings and blobs long, every optional struct member present; None when the value set is (practically) empty"""
+    t = tree['t']
+    if t == 'string':
+        n = _size(rng, tree['min'], tree['max'], budget)
+        return gen_text(rng, n, tree['utf8'], special=rng.choice([0.0, 0.05, 0.3]))
+    if t == 'blob':
+        return gen.gen_bytes(rng, tree, _size(rng, tree['min'], tree['max'], budget // 3))
+    if t == 'array':
+        lo, hi = tree['min'], tree['max']
+        cap = max(lo, min(hi, max(1, budget // 12)))
+        n = hi if hi <= cap else rng.choice([cap, _size(rng, lo, cap, cap)])
+        items = [gen_big(rng, tree['elem'], max(8, budget // max(1, n))) for _ in range(n)]
+        if any(x is None for x in items):
+            return () if lo == 0 else None
+        return tuple(items)
+    if t == 'tuple':
+        items = [gen_big(rng, e, budget // len(tree['elems'])) for e in tree['elems']]
+        return None if any(x is None for x in items) else tuple(items)
+    if t == 'struct':
+        res = {}
+        for k, m in tree['members']:
+            v = gen_big(rng, m, budget // len(tree['members']))
+            if v is None:
+                if k in tree['optional']:
+                    continue
+                return None
+            res[k] = v
+        return res
+    if t == 'double' and rng.random() < 0.7:
+        # many digits: a number taking 17 significant digits (and a 3 digit exponent), inside the limits
+        lo, hi = gen._f(tree['min']), gen._f(tree['max'])
+        u = rng.random()
+        x = lo + (hi - lo) * u if math.isfinite(hi - lo) else (lo * (1 - u) + hi * u)
+        if lo <= x <= hi:
+            return x + 0.0
+    return gen.gen_valid(rng, tree)
+
+
+def can_be_big(tree):
+    """does the type have values with a long text form (an array of more than 8 elements, a string / blob of more than
+    100 characters / bytes, an enum member with a long name)?"""
+    t = tree['t']
+    if t == 'array':
+        return tree['max'] > 8 or can_be_big(tree['elem'])
+    if t == 'tuple':
+        return any(can_be_big(e) for e in tree['elems'])
+    if t == 'struct':
+        return len(tree['members']) > 8 or any(can_be_big(m) for _, m in tree['members'])
+    if t in ('string', 'blob'):
+        return tree['max'] > 100
+    if t == 'enum':
+        return any(len(n) > 100 for n, _ in tree['members'])
+    return False
+
+
+def big_trees(rng):
+    """types whose values can be large: every container kind around every leaf kind, with the widest limits"""
+    fj = gen.fj
+    db = {'t': 'double', 'min': fj(-gen.FMAX), 'max': fj(gen.FMAX), 'ar': fj(0.0), 'rr': fj(1.2e-7)}
+    it = {'t': 'int', 'min': -2 ** 63, 'max': 2 ** 63}
+    sc = {'t': 'scaled', 'scale': fj(1e-3), 'min': fj(-1e9), 'max': fj(1e9), 'ar': fj(1e-3), 'rr': fj(1.2e-7)}
+    st = {'t': 'string', 'min': 0, 'max': gen.UNLIMITED, 'utf8': True}
+    sa = {'t': 'string', 'min': 0, 'max': gen.UNLIMITED, 'utf8': False}
+    s9 = {'t': 'string', 'min': 0, 'max': rng.choice([255, 1024, 5000]), 'utf8': True}
+    bl = {'t': 'blob', 'min': 0, 'max': rng.choice([1024, 4096, 100000])}
+    en = {'t': 'enum', 'members': [['idle', 0], ['n' * rng.choice(SIZES[:20]), 1], ['busy busy', 2]]}
+    bo = {'t': 'bool'}
+    leaves = [db, it, sc, st, sa, s9, bl, en, bo]
+    out = [st, sa, s9, bl, en]
+    for leaf in leaves:
+        out.append({'t': 'array', 'elem': leaf, 'min': 0, 'max': rng.choice([30, 100, 100, 256, 1000])})
+    out.append({'t': 'array', 'elem': {'t': 'array', 'elem': rng.choice([db, it, st]), 'min': 0, 'max': 30}, 'min': 0, 'max': 30})
+    out.append({'t': 'tuple', 'elems': [st, sa, bl]})
+    out.append({'t': 'tuple', 'elems': [rng.choice(leaves) for _ in range(rng.choice([12, 40]))]})
+    out.append({'t': 'struct', 'members': [['text', st], ['data', {'t': 'array', 'elem': db, 'min': 0, 'max': 100}]], 'optional': ['data'],
+                'client': False})
+    out.append({'t': 'struct', 'members': [['member_%02d' % i, rng.choice([db, it, bo, en, s9])] for i in range(rng.choice([12, 40]))],
+                'optional': [], 'client': False})
+    out.append({'t': 'array', 'elem': {'t': 'struct', 'members': [['a', it], ['b', db], ['c', st]], 'optional': ['c'], 'client': False},
+                'min': 0, 'max': 60})
     return out
 
 
@@ -704,7 +971,7 @@ def sub_cases(case):
 
 def judge_case(ctx, case):
     req, impl, libfail = eval_case(case)
-    ans = ctx.driver.batch([req])[0]
+    ans = batch_nl(ctx.driver, [req])[0]
     return ans, impl
 
 
@@ -725,7 +992,7 @@ def shrink(ctx, case, clause):
     # containers: fewer elements
     tree, v = case['tree'], case['v']
     if tree['t'] == 'array' and isinstance(v, dict) and len(v.get('t', [])) > max(1, tree['min']):
-        for x in v['t']:
+        for x in v['t'][:20]:
             cand = dict(case, v={'t': [x] * max(1, tree['min'])})
             try:
                 ans, _ = judge_case(ctx, cand)
@@ -733,7 +1000,71 @@ def shrink(ctx, case, clause):
                 continue
             if clause in ans.get('judge', []):
                 return cand
+    # a failure that needs a large value: halve arrays / strings / blobs anywhere in the value while it still fails
+    calls = 0
+    progress = True
+    while progress and calls < 60:
+        progress = False
+        for vj in smaller_values(case['tree'], case['v']):
+            cand = dict(case, v=vj)
+            calls += 1
+            try:
+                ans, _ = judge_case(ctx, cand)
+            except Exception:
+                continue
+            if clause in ans.get('judge', []):
+                case = cand
+                progress = True
+                break
+            if calls >= 60:
+                break
     return case
+
+
+def smaller_values(tree, vj):
+    """protocol values like vj with one array / string / blob cut down (a half, three quarters, one element less), the
+    largest cuts first; the minimum lengths of the type are respected (an invalid value is not judged anyway)"""
+    t = tree['t']
+
+    def cuts(n, lo):
+        out = []
+        for m in (n // 2, n - n // 4, n - 1):
+            if lo <= m < n and m not in out:
+                out.append(m)
+        return out
+    if t == 'string' and isinstance(vj, str):
+        if vj != 'a' * len(vj):
+            yield 'a' * len(vj)                 # the content does not matter
+        for m in cuts(len(vj), tree['min']):
+            yield vj[:m]
+            if m == len(vj) // 2:
+                yield vj[len(vj) - m:]
+    elif t == 'blob' and isinstance(vj, dict) and 'b' in vj:
+        for m in cuts(len(vj['b']) // 2, tree['min']):
+            yield {'b': vj['b'][:2 * m]}
+    elif t == 'array' and isinstance(vj, dict) and 't' in vj:
+        items = vj['t']
+        for m in cuts(len(items), tree['min']):
+            yield {'t': items[:m]}
+            if m == len(items) // 2:
+                yield {'t': items[len(items) - m:]}
+        for i, x in enumerate(items[:8]):
+            for y in smaller_values(tree['elem'], x):
+                yield {'t': items[:i] + [y] + items[i + 1:]}
+    elif t == 'tuple' and isinstance(vj, dict) and 't' in vj:
+        items = vj['t']
+        for i, (e, x) in enumerate(zip(tree['elems'], items)):
+            for y in smaller_values(e, x):
+                yield {'t': items[:i] + [y] + items[i + 1:]}
+    elif t == 'struct' and isinstance(vj, dict) and 'd' in vj:
+        md = dict((k, m) for k, m in tree['members'])
+        items = vj['d']
+        for i, (k, x) in enumerate(items):
+            if k in tree['optional']:
+                yield {'d': items[:i] + items[i + 1:]}
+            if k in md:
+                for y in smaller_values(md[k], x):
+                    yield {'d': items[:i] + [[k, y]] + items[i + 1:]}
 
 
 def signature(clause, case):
@@ -746,16 +1077,19 @@ def describe(case, impl):
     dt = build_dt(case['tree'], case.get('fmts', {}))
     v = dtcodec.json_to_py(case['v'])
 
+    def short(a):
+        return a if len(a) <= 200 else '%s...<%d characters>...%s' % (a[:120], len(a), a[-40:])
+
     def show(k):
         o = impl.get(k)
         if isinstance(o, dict) and 'ok' in o:
             x = o['ok']
             if isinstance(x, dict) and ('bare' in x or 'syn' in x):
-                return json.dumps(x, ensure_ascii=False)
+                return short(json.dumps(x))
             try:
-                return repr(dtcodec.json_to_py(x))
+                return short(ascii(dtcodec.json_to_py(x)))
             except Exception:
-                return json.dumps(x)
+                return short(json.dumps(x))
         return json.dumps(o)
     real = {}
     try:
@@ -763,7 +1097,8 @@ def describe(case, impl):
     except Exception as e:
         real['to_string'] = type(e).__name__
     what = ', '.join(f'{k}={show(k)}' for k in KEYS if k != 'cdt' and impl.get(k) is not None)
-    return f'{dt!r} value={v!r} to_string={real["to_string"]!r}: {what}'[:1500]
+    n = len(real['to_string'])
+    return f'{short(ascii(dt))} value={short(ascii(v))} to_string={short(ascii(real["to_string"]))} ({n} characters): {what}'[:3000]
 
 
 # ---------------------------------------------------------------------------------------------
@@ -789,9 +1124,16 @@ def run(ctx):
     while len(trees) < ntrees:
         d = rng.choice([1, 2, 2, 3, 3, 3] + ([4, 5] if big else []))
         trees.append((gen.gen_tree(rng, min(d, maxdepth)), 'gen'))
+    # types whose values can be large (maximal containers, long strings / blobs / names): the text form and the JSON line
+    # of such a value are long
+    nbig = ctx.budget(16, 400)
+    bigs = []
+    while len(bigs) < nbig:
+        bigs += big_trees(rng)
+    trees += [(t, 'big') for t in bigs[:max(nbig, 24)]]
     for tree0, origin in trees:
         if origin == 'gen':
-            tree0 = blank_names(rng, tree0)
+            tree0 = odd_keys(rng, blank_names(rng, tree0))
         try:
             tree = dtcodec.dt_to_tree(dtcodec.tree_to_dt(tree0))
         except Exception as e:
@@ -808,7 +1150,15 @@ def run(ctx):
             res.count('fmtstr=' + (f if f == '%g' else '%.<n>' + f[-1]))
             res.count('fmtstr.digits=' + ('default' if f == '%g' else '0-2' if int(f[2:-1]) <= 2 else '3-9' if int(f[2:-1]) <= 9
                                           else '10-17'))
-        for v in gen_values(rng, tree, per_tree):
+        values = gen_values(rng, tree, per_tree if origin != 'big' else 2)
+        if can_be_big(tree):
+            res.count('tree.can-be-big')
+            for _ in range(3 if origin == 'big' else 1):
+                # budget: about the number of characters of the text form (mostly around the usual limits, now and then huge)
+                v = gen_big(rng, tree, rng.choice([300, 1200, 1200, 3000, 3000, 6000, 12000] + ([150000] if rng.random() < 0.15 else [])))
+                if v is not None:
+                    values.append(v)
+        for v in values:
             if not dtcodec.encodable(v):
                 continue
             cases.append(({'tree': tree, 'v': dtcodec.py_to_json(v), 'fmts': fmts}, origin))
@@ -819,14 +1169,15 @@ def run(ctx):
     seen_unshrunk = set()
     for start in range(0, len(cases), CH):
         chunk = cases[start:start + CH]
-        reqs, impls, lfs = [], [], []
+        reqs, impls, lfs, sts = [], [], [], []
         for c, _ in chunk:
             req, impl, libfail = eval_case(c)
             reqs.append(req)
             impls.append(impl)
             lfs.append(libfail)
-        answers = ctx.driver.batch(reqs)
-        for (c, origin), impl, libfail, ans in zip(chunk, impls, lfs, answers):
+            sts.append(dict(LAST_STATS))
+        answers = batch_nl(ctx.driver, reqs)
+        for (c, origin), impl, libfail, st, ans in zip(chunk, impls, lfs, sts, answers):
             if 'driver_error' in ans:
                 raise RuntimeError(f'driver error {ans} on {json.dumps(c)[:400]}')
             res.evaluations += 1
@@ -841,6 +1192,13 @@ def run(ctx):
                 continue
             res.traces += 1
             res.count('valid.root=' + t)
+            for key, n in sorted(st.items()):
+                # length of the text form (to_string) / of the JSON line (encode_msg_frame) of the value
+                res.count('%s.length=%s' % (key, '0-100' if n <= 100 else '101-1000' if n <= 1000 else '1001-10000' if n <= 10000
+                                            else '>10000'))
+            strs = [x for x in other_leaves(c['tree'], dtcodec.json_to_py(c['v'])) if isinstance(x, str)]
+            for k in set().union(*[text_classes(x) for x in strs]) if strs else ():
+                res.count('string-content=' + k)
             res.count('canon=%s' % ans['canon'])
             res.count('node-text-judged=%s' % (ans['canon'] and ans['complete'] and ans['fmtlaw']))
             res.count('scaled-limits-on-grid=%s' % ans.get('limits'))
@@ -904,7 +1262,7 @@ def run(ctx):
 def replay(ctx, rp):
     case = rp['case']
     req, impl, libfail = eval_case(case)
-    ans = ctx.driver.batch([req])[0]
+    ans = batch_nl(ctx.driver, [req])[0]
     dt = build_dt(case['tree'], case.get('fmts', {}))
     v = dtcodec.json_to_py(case['v'])
     print('datatype :', repr(dt))
